@@ -29,8 +29,9 @@ def showEvents (evs : List Event) : String :=
         | .stop n => "e:" ++ showCps n
         | .comment t => "m:" ++ showCps t
         | .pi t d => "p:" ++ showCps t ++ ":" ++ showCps d
+        | .doctype _ => ""
         | .chr _ => ""
-      go r [] (s :: acc)
+      go r [] (if s.isEmpty then acc else s :: acc)
   "|".intercalate (go evs [] [])
 
 def parseAttrs : List String → Option (List (Str × Str))
